@@ -10,7 +10,7 @@ def hx(s):
 
 
 NAMES = ['a', 'b', 'c', 'd', 'e', 'f']          # >= branching, shared by nodes under different parents
-TYPES = ['t1', 't2', 't3']
+TYPES = ['t1', 't2', 't3', 'T1', 'xt2']
 PNAMES = ['p', 'q', 'r', 's', 'u']
 SHAPES = ['random', 'chain', 'star', 'full', 'bushy', 'tiny']
 
@@ -132,8 +132,14 @@ class C20(Prop):
                        'generator-chosen handle route (@c creating handle, @e a second handle that looked at the entity while it was still '
                        'childless / property-less / array-less (`peek`), @f freshly fetched by name, @p fetched through the parent\'s peeked handle) '
                        'and in three history shapes: interleaved rw; build without any query -> reopen ReadOnly -> queries -> reopen rw -> more; '
-                       'rw rounds -> ReadOnly -> rw. The model answers do not depend on route or mode')
-    assumptions = ['TypeFilter(str) is boost::regex_match; modelled as string equality (generated types contain no regex metacharacters)',
+                       'rw rounds -> ReadOnly -> rw. The model answers do not depend on route or mode. '
+                       'About 30 % of the queries go to the further public entry points (counted in the evidence under entry_points / '
+                       'filter_constructors): sections(filter) / sources(filter) / dataArrays|tags|multiTags|blocks|properties(filter) enumerations '
+                       '(a depth-1 search must equal them), the block-restricted referring*(const Block&) overloads incl. a none Block, '
+                       'all-default findSections() / findSources(), File::findSections(max_depth), TypeFilter(str, false), TypeFilter(boost::regex), '
+                       'MetadataFilter / SourceFilter as user filters; every fourth query batch ends with findRelated from every live section')
+    assumptions = ['TypeFilter(str) / TypeFilter(boost::regex) are boost::regex_match, TypeFilter(str, false) is a case-insensitive boost::regex_search; modelled as '
+                   'string equality resp. ASCII-case-insensitive substring test (generated types contain no regex metacharacters)',
                    'children are enumerated in HDF5 creation order (H5Lget_name_by_idx on the creation-order index), deleting a child keeps the '
                    'order of the others; H5Group::removeAllLinks removes every link to the deleted object (metadata/link/source links included)',
                    'ids are unique and UUID-shaped (C12); no source is named like an id',
@@ -164,7 +170,7 @@ class C20(Prop):
     def nontrivial(self, case, model_lines):
         for l, m in zip(case.lines, model_lines):
             w = self.word(l)
-            if w.startswith(('find', 'rel', 'inh', 'ref', 'src', 'par')) and w != 'src' and m.startswith('OK ') and not m.startswith('OK 0'):
+            if w.startswith(('find', 'rel', 'inh', 'ref', 'src', 'par', 'enum')) and w != 'src' and m.startswith('OK ') and not m.startswith('OK 0'):
                 return True
         return False
 
@@ -184,6 +190,73 @@ class C20(Prop):
             if b != 'ANY' and not self.compare(a, b):
                 return 'line %d `%s`: implementation answers %r, the brute-force specification requires %r' % (i + 1, case.lines[i], a, b)
         return 'no difference'
+
+    # ---- which public entry point a script line exercises (route audit); counted into the evidence
+    FILTERS = {'all': 'AcceptAll', 'id': 'IdFilter', 'name': 'NameFilter', 'type': 'TypeFilter(str)', 'ids': 'IdsFilter',
+               'typei': 'TypeFilter(str, exact=false)', 'typere': 'TypeFilter(boost::regex)', 'meta': 'MetadataFilter',
+               'hassrc': 'SourceFilter<Source>', 'srcf': 'SourceFilter', 'default': None, 'nofilter': None}
+
+    def entry_point(self, line):
+        t = line.split(' ')
+        route = None
+        if t[0].startswith('@'):
+            route = t[0][1]; t = t[1:]
+        w = t[0]
+        ep = flt = None
+        own = {'S': 'Section', 'R': 'Source', 'B': 'Block', 'f': 'File'}
+        if w in ('findsec', 'findsrc'):
+            o = own[t[1][0]]
+            fn = 'findSections' if w == 'findsec' else 'findSources'
+            if t[3] == 'default' or (t[3] == 'nofilter' and t[2] == 'max'):
+                ep = '%s::%s()' % (o, fn)
+            elif t[3] == 'nofilter':
+                ep = 'File::findSections(max_depth)'
+            else:
+                ep = '%s::%s(filter%s)' % (o, fn, '' if t[2] == 'max' else ', max_depth'); flt = t[3]
+        elif w == 'related':
+            ep = 'Section::findRelated(filter)'; flt = t[2]
+        elif w == 'enum':
+            ep = '%s::%s(filter)' % (own[t[1][0]], 'sections' if t[1][0] in 'Sf' else 'sources'); flt = t[2]
+        elif w in ('enuma', 'enumt', 'enumm'):
+            ep = 'Block::%s(filter)' % {'enuma': 'dataArrays', 'enumt': 'tags', 'enumm': 'multiTags'}[w]; flt = t[2]
+        elif w == 'enumb':
+            ep = 'File::blocks(filter)'; flt = t[1]
+        elif w == 'enump':
+            ep = 'Section::properties(filter)'; flt = t[2]
+        elif w.endswith('_in'):
+            ep = 'Section::%s(%s)' % ({'refarrays_in': 'referringDataArrays', 'reftags_in': 'referringTags', 'refmtags_in': 'referringMultiTags',
+                                       'refsources_in': 'referringSources'}[w], 'none Block' if t[2] == 'none' else 'const Block&')
+        elif w in ('refarrays', 'reftags', 'refmtags', 'refsources', 'refblocks'):
+            ep = 'Section::%s()' % {'refarrays': 'referringDataArrays', 'reftags': 'referringTags', 'refmtags': 'referringMultiTags',
+                                    'refsources': 'referringSources', 'refblocks': 'referringBlocks'}[w]
+        elif w in ('srcarrays', 'srctags', 'srcmtags'):
+            ep = 'Source::%s()' % {'srcarrays': 'referringDataArrays', 'srctags': 'referringTags', 'srcmtags': 'referringMultiTags'}[w]
+        elif w == 'parent':
+            ep = 'Source::parentSource()'
+        elif w == 'inherited':
+            ep = 'Section::inheritedProperties()'
+        return ep, (self.FILTERS.get(flt) if flt else None), route
+
+    def extra_checks(self, ctx):
+        eps, fls, rts, modes = {}, {}, {}, {'rw': 0, 'ro': 0}
+        for c in self.generate(ctx['seed'], ctx['tier'], 1):
+            ro = False
+            for l in c.lines:
+                if l.startswith('reopen'):
+                    ro = l.endswith('ro')
+                ep, fl, rt = self.entry_point(l)
+                if ep:
+                    eps[ep] = eps.get(ep, 0) + 1
+                    modes['ro' if ro else 'rw'] += 1
+                    if fl:
+                        fls[fl] = fls.get(fl, 0) + 1
+                    if rt:
+                        rts['@' + rt] = rts.get('@' + rt, 0) + 1
+        ctx['ev']['entry_points'] = dict(sorted(eps.items()))
+        ctx['ev']['filter_constructors'] = dict(sorted(fls.items()))
+        ctx['ev']['handle_routes'] = dict(sorted(rts.items()))
+        ctx['ev']['queries_by_open_mode'] = modes
+        return []
 
     # ---- generator
     def one_case(self, rnd, shape, nq):
@@ -210,12 +283,13 @@ class C20(Prop):
                  block=b, peek=lambda k: peek('R', k))
         # properties and links
         props = {}
+        nprop = [0]
         for k in S.live():
             if rnd.random() < 0.35:
                 names = rnd.sample(PNAMES, rnd.choice([1, 2, 3]))
                 props[k] = names
                 for n in names:
-                    L.append('prop %d %s' % (k, hx(n)))
+                    L.append('prop %d %s' % (k, hx(n))); nprop[0] += 1
         withprops = list(props)
         linked = []
         for k in S.live():
@@ -260,6 +334,18 @@ class C20(Prop):
             r = rnd.random()
             allk = list(range(len(F.parent)))
             live = F.live()
+            x = rnd.random()
+            if x < 0.10:       # TypeFilter(str, exact=false): case-insensitive substring
+                pool = [F.type[k] for k in live] if live and rnd.random() < 0.5 else []
+                return 'typei ' + hx(rnd.choice(pool + ['t', 'T', '1', 'T2', 'xT', 't1', 'zz', '2']))
+            if x < 0.16:       # TypeFilter(boost::regex)
+                pool = [F.type[k] for k in live] if live and rnd.random() < 0.85 else TYPES + ['t', 't11']
+                return 'typere ' + hx(rnd.choice(pool))
+            if kindch == 'R' and x < 0.26:   # MetadataFilter<Source> / SourceFilter<Source> handed in by the user
+                if rnd.random() < 0.6:
+                    c = holders_of('R')
+                    return 'meta S%d' % (rnd.choice(c) if c and rnd.random() < 0.7 else rnd.randrange(max(1, len(S.parent))))
+                return 'hassrc ' + (('R%d' % rnd.choice(allk)) if allk and rnd.random() < 0.9 else rnd.choice(['X', 'N']))
             if r < 0.28 or not allk:
                 return 'all'
             if r < 0.46:
@@ -311,7 +397,70 @@ class C20(Prop):
                 return '@f ' + q
             return '@p ' + q
 
+        def efilt(kind):
+            x = rnd.random()
+            if x < 0.2:
+                return 'all'
+            if x < 0.45:
+                return 'id %s%d' % (kind, rnd.randrange(cnt[kind] + 1) if kind != 'B' else rnd.randrange(nblocks + 1))
+            if x < 0.75 or kind == 'B':
+                c = holders_of(kind)
+                return 'meta S%d' % (rnd.choice(c) if c and rnd.random() < 0.7 else rnd.randrange(max(1, len(S.parent))))
+            c = sorted({s for e, s in attached if e[0] == kind})
+            return 'srcf R%d' % (rnd.choice(c) if c and rnd.random() < 0.7 else rnd.randrange(max(1, len(R.parent))))
+
+        def route_query():
+            """entry points of the route audit: filtered enumerations, block-restricted overloads, all-default calls"""
+            r = rnd.random()
+            sl, rl = S.live(), R.live()
+            if r < 0.16 and sl:
+                k = tall(S, sl)
+                return routed('S', k, 'enum S%d %s' % (k, filt(S, 'S')))
+            if r < 0.22:
+                return 'enum file ' + filt(S, 'S')
+            if r < 0.34 and rl:
+                k = tall(R, rl)
+                return routed('R', k, 'enum R%d %s' % (k, filt(R, 'R')))
+            if r < 0.42:
+                b = rnd.randrange(nblocks)
+                return routed('B', b, 'enum B%d %s' % (b, filt(R, 'R')))
+            if r < 0.56:
+                b = rnd.randrange(nblocks)
+                w, kind = rnd.choice([('enuma', 'A'), ('enumt', 'T'), ('enumm', 'M')])
+                return routed('B', b, '%s B%d %s' % (w, b, efilt(kind)))
+            if r < 0.60:
+                return 'enumb ' + efilt('B')
+            if r < 0.68 and sl:
+                c = [k for k in props if S.alive[k]]
+                k = rnd.choice(c) if c and rnd.random() < 0.8 else rnd.choice(sl)
+                x = rnd.random()
+                f = 'all' if x < 0.2 else 'name ' + hx(rnd.choice(PNAMES + ['zz'])) if x < 0.65 else 'id P%d' % rnd.randrange(nprop[0] + 1)
+                return routed('S', k, 'enump %d %s' % (k, f))
+            if r < 0.86 and sl:
+                word, prefix = rnd.choice([('refarrays_in', 'A'), ('reftags_in', 'T'), ('refmtags_in', 'M'), ('refsources_in', 'R')])
+                c = holders_of(prefix)
+                k = rnd.choice(c) if c and rnd.random() < 0.8 else rnd.choice(sl)
+                b = 'none' if rnd.random() < 0.2 else 'B%d' % rnd.randrange(nblocks)
+                return routed('S', k, '%s %d %s' % (word, k, b))
+            x = rnd.random()
+            if x < 0.3 and sl:
+                k = tall(S, sl)
+                return routed('S', k, 'findsec S%d max default' % k)
+            if x < 0.45:
+                return 'findsec file max default'
+            if x < 0.6:
+                h = max([1 + S.height_below(k) for k in sl if S.parent[k] < 0] + [0])
+                return 'findsec file %s nofilter' % depth_for(h)
+            if x < 0.85 and rl:
+                k = tall(R, rl)
+                return routed('R', k, 'findsrc R%d max default' % k)
+            b = rnd.randrange(nblocks)
+            return routed('B', b, 'findsrc B%d max default' % b)
+
         def query():
+            r = rnd.random()
+            if r < 0.30:
+                return route_query()
             r = rnd.random()
             sl, rl = S.live(), R.live()
             if r < 0.22 and sl:
@@ -389,7 +538,7 @@ class C20(Prop):
                     peek('S', k, 0.6)
                     n = rnd.choice(free)
                     props.setdefault(k, []).append(n)
-                    L.append('prop %d %s' % (k, hx(n)))
+                    L.append('prop %d %s' % (k, hx(n))); nprop[0] += 1
                     if not quiet:
                         L.append(routed('S', k, 'inherited %d' % k))
             else:
@@ -413,6 +562,10 @@ class C20(Prop):
         def ask(n):
             for _ in range(n):
                 L.append(query())
+            if rnd.random() < 0.25:               # findRelated from every live section with one filter
+                f = filt(S, 'S')
+                for k in S.live():
+                    L.append(routed('S', k, 'related %d %s' % (k, f)))
             deadS = [k for k in range(len(S.parent)) if not S.alive[k]]
             deadR = [k for k in range(len(R.parent)) if not R.alive[k]]
             if deadS and rnd.random() < 0.3:      # queries on deleted entities: refused on both sides
